@@ -46,6 +46,8 @@ def subspaces(tier):
     out += C.structure_subspaces(fs, 2, False, mode="frames", source="history")
     out += C.structure_subspaces(s3, 2, False, mode="frames", source="solver")
     out += C.structure_subspaces(D.shapes(2, 2), 2, True, only_flexible=True, mode="frames", source="history")
+    for ep in (1, 2):
+        out += C.structure_subspaces(D.shapes(2, 3) if ep == 2 and tier == "quick" else s3, 2, False, mode="creator", episodes=ep)
     out.append(dict(mode="order", shape=[1], machines=[[0]], listing="ij", limit=100000))
     out.append(dict(mode="order", shape=[1], machines=[[0]], listing="ji", limit=100000))
     if tier == "thorough":
@@ -229,8 +231,10 @@ def os_stub():
 
 def imageio_stub():
     def imread(path):
+        import numpy as np
+
         REC.loaded.append(path)
-        return path
+        return np.zeros((16, 16, 3), dtype=np.uint8)
 
     def mimsave(path, images, **kw):
         REC.mimsave.append((path, list(images)))
@@ -282,6 +286,8 @@ def harness(eng, sp):
             bars_harness(eng, sp)
         elif sp["mode"] == "frames":
             frames_harness(eng, sp)
+        elif sp["mode"] == "creator":
+            creator_harness(eng, sp)
         else:
             order_harness(eng, sp)
     finally:
@@ -459,6 +465,56 @@ def frames_harness(eng, sp):
     eng.observe("mk", spec.makespan())
 
 
+def creator_harness(eng, sp):
+    """GanttChartCreator.create_gif/create_video after one or two episodes on the same dispatcher."""
+    from job_shop_lib.dispatching import Dispatcher
+    from job_shop_lib.visualization import GanttChartCreator
+
+    inst, desc = D.build_instance(eng, sp["shape"], sp["machines"], dmin=0)
+    for d in desc.dur:
+        eng.assume(d <= 2)
+    disp = Dispatcher(inst)
+    creator = GanttChartCreator(disp)
+    spec = Spec(desc)
+    for ep in range(sp["episodes"]):
+        last = ep == sp["episodes"] - 1
+        spec = Spec(desc)
+        n = desc.n_ops if last else 1 + eng.choice(desc.n_ops, "first-episode-length")
+        for _ in range(n):
+            op, m = D.choose_dispatch(eng, desc, spec)
+            disp.dispatch(D.op_by_id(inst, op), m)
+            spec.apply(op, m)
+            eng.reachable("transition")
+        if not last:
+            disp.reset()
+    for what in ("gif", "video"):
+        REC.reset()
+        try:
+            creator.create_gif() if what == "gif" else creator.create_video()
+        except E.Unsupported:
+            raise
+        except E.PathAbort:
+            raise
+        except Exception as ex:
+            eng.fail(f"C20/creator/{what}/exception-{type(ex).__name__}", f"{ex}"[:200])
+            continue
+        eng.reachable("state")
+        frames = [fig for _, fig in REC.saved]
+        if len(frames) != desc.n_ops:
+            eng.fail(f"C20/creator/{what}/number-of-frames-differs-from-history-length", f"{len(frames)} vs {desc.n_ops}")
+            continue
+        prefix = Spec(desc)
+        for k, (op, m) in enumerate(spec.history):
+            prefix.apply(op, m)
+            if frames[k].ax is None:
+                eng.fail(f"C20/creator/{what}/frame-without-chart")
+                break
+            check_chart(eng, desc, prefix, frames[k], spec.makespan(), key=f"C20/creator/{what}/frame-k-does-not-show-the-first-k-operations")
+        if not REC.mimsave or len(REC.mimsave[-1][1]) != desc.n_ops:
+            eng.fail(f"C20/creator/{what}/encoder-does-not-receive-one-image-per-frame")
+    eng.observe("mk", spec.makespan())
+
+
 def order_harness(eng, sp):
     """Two symbolic frame numbers through the real naming and loading code."""
     import job_shop_lib.visualization._gantt_chart_video_and_gif_creation as V
@@ -476,7 +532,8 @@ def order_harness(eng, sp):
     REC.listing = names if sp["listing"] == "ij" else names[::-1]
     eng.reachable("state")
     eng.reachable("transition")
-    loaded = V._load_images("frames_dir")
+    V._load_images("frames_dir")
+    loaded = list(REC.loaded)
     want = [REC.saved[0][0], REC.saved[1][0]]
     if [str(x) for x in loaded] != [str(x) for x in want]:
         eng.fail("C20/frames/frames-loaded-in-non-numeric-order", "frame j is loaded before frame i although i < j")
@@ -500,7 +557,7 @@ def order_replay(eng, sp, V):
         disp.dispatch(op, 0)
     REC.reset()
     V.create_gantt_chart_gif(inst, gif_path="x.gif", plot_function=lambda *a, **k: FigStub(), schedule_history=list(hist.history))
-    images = REC.mimsave[-1][1] if REC.mimsave else []
+    images = list(REC.loaded)
     nums = [int(re.findall(r"(\d+)", str(p).rsplit("/", 1)[-1])[-1]) for p in images]
     if nums != sorted(nums) or len(nums) != n:
         bad = next((k for k in range(len(nums) - 1) if nums[k] > nums[k + 1]), None)
